@@ -6,7 +6,7 @@ From Coq Require Import ZArith List Bool String.
 From TV Require Import spec.Num spec.PyLib model.GraphsIter gen.ExhaustAst gen.Desugar gen.IterGraphs.
 From TV Require model.Graphs model.OutputOrder.
 From TV Require proofs.OutputOrderWalk.
-From TV Require Import proofs.GenGraphs_equiv.
+From TV Require Import proofs.GenGraphs_total.
 Import ListNotations.
 Module M := TV.model.Graphs.
 Module O := TV.model.OutputOrder.
@@ -103,3 +103,43 @@ Theorem TIE_graphs_generate_outcomes_typed_partial : forall a fs ks,
   O.wf_problem a fs = true -> W.typed_partial (generate_src a fs ks).
 Proof. exact gen_generate_outcomes_typed_partial. Qed.
 Print Assumptions TIE_graphs_generate_outcomes_typed_partial.
+
+(** *** C08 at full strength for today's source: generation is TOTAL.
+    Every graph of the filtered enumeration can be lowered (not even structurally bad) ... *)
+Theorem TIE_graphs_src_graphs_not_bad : forall a fs gs modes,
+  to_iteration_graphs_src a fs = M.ROk gs -> O.output_modes a fs = Some modes ->
+  Forall (fun g => O.graph_bad_struct modes g = false) gs.
+Proof. exact src_graphs_not_bad. Qed.
+Print Assumptions TIE_graphs_src_graphs_not_bad.
+
+(** ... so for a well-formed request the outcome is code or one of the documented refusals *)
+Theorem TIE_graphs_generate_total : forall a fs ks,
+  O.wf_problem a fs = true ->
+  generate_src a fs ks = O.Code \/ generate_src a fs ks = O.Diagonal \/ generate_src a fs ks = O.NoKernel.
+Proof. exact gen_generate_total. Qed.
+Print Assumptions TIE_graphs_generate_total.
+
+Theorem TIE_graphs_tensor_method_total : forall a fs,
+  O.wf_problem a fs = true ->
+  (tensor_method_src a fs = O.Code \/ tensor_method_src a fs = O.Diagonal \/ tensor_method_src a fs = O.NoKernel)
+  \/ tensor_method_src a fs = O.BroadcastTarget.
+Proof. exact gen_tensor_method_total. Qed.
+Print Assumptions TIE_graphs_tensor_method_total.
+
+(** instances: the witness of K-C08-1 (A(i,j,k) = B(j,i,k), A:dds, B:dss) is now a typed refusal, where the
+    unfiltered hand model gives the internal error; a sparse matrix-vector product gives code *)
+Example TIE_graphs_ex_k_c08_1 :
+  let a := M.mkDA (M.mkDT 0 "A" ["i"; "j"; "k"]) (M.DTensor (M.mkDT 1 "B" ["j"; "i"; "k"])) in
+  let fs := [("A", M.mkFormat [M.Dense; M.Dense; M.Compressed] [0; 1; 2]);
+             ("B", M.mkFormat [M.Dense; M.Compressed; M.Compressed] [0; 1; 2])] in
+  O.wf_problem a fs = true /\ generate_src a fs [O.Evaluate] = O.NoKernel
+  /\ O.generate a fs [O.Evaluate] = O.InternalAppendNextOutput.
+Proof. vm_compute. repeat split; reflexivity. Qed.
+
+Example TIE_graphs_ex_code :
+  let a := M.mkDA (M.mkDT 0 "a" ["i"])
+             (M.DContract "j" (M.DMultiply (M.DTensor (M.mkDT 1 "B" ["i"; "j"])) (M.DTensor (M.mkDT 2 "c" ["j"])))) in
+  let fs := [("a", M.mkFormat [M.Compressed] [0]); ("B", M.mkFormat [M.Dense; M.Compressed] [0; 1]);
+             ("c", M.mkFormat [M.Dense] [0])] in
+  O.wf_problem a fs = true /\ generate_src a fs [O.Assemble; O.Compute; O.Evaluate] = O.Code.
+Proof. vm_compute. split; reflexivity. Qed.
